@@ -82,7 +82,9 @@ func c01Policies(thorough bool) []policy {
 	// upstreams that switch on the options which have nothing to do with admission: they admit exactly whom
 	// the same rules admit without them
 	out = append(out, policy{Name: "grp/skip0/other-options", Groups: polGroups, OtherOptions: true},
-		policy{Name: "addr/skip1/other-options", Addrs: polAddrs, Skip: skips[1], OtherOptions: true})
+		policy{Name: "addr/skip1/other-options", Addrs: polAddrs, Skip: skips[1], OtherOptions: true},
+		// a group list in which '*' is one entry among others: only a LONE '*' is a wildcard
+		policy{Name: "grp-star-among-others/skip0", Groups: []string{"*", "eng"}})
 	return out
 }
 
